@@ -104,15 +104,18 @@ def command_jobs(tier, wd, seed):
             choice = {cmd["params"][j]["name"]: v - 1 for j, v in enumerate(pr["choice"]) if v > 0}
             line, call = ctlcmds.build(cmd, choice)
             prefixes = PREFIXES[cls]
-            pre = prefixes[i % len(prefixes)]
-            script = [{"c": "connect", "s": 0, "width": 80}, {"c": "idle"}]
-            for text, pcall in pre:
-                script += [{"c": "send", "s": 0, "text": text, "cls": "mutate", "call": pcall}, {"c": "idle"}]
-            script += [{"c": "send", "s": 0, "text": line, "cls": "cmd", "call": call}, {"c": "idle"},
-                       {"c": "release_all"}, {"c": "idle"},
-                       {"c": "send", "s": 0, "text": "num-ended", "cls": "query", "call": {"kind": "get", "m": "num_ended"}},
-                       {"c": "idle"}, {"c": "eof", "s": 0}]
-            jobs.append({"kind": "command", "cls": cls, "line": line, "script": script, "twin": True})
+            # the awaited methods behave very differently depending on what is in the pool: run them after every prefix
+            pres = prefixes if cmd["member"] in ("flush", "gather_and_close", "until_closed", "cancel", "cancel_group", "stop") \
+                else [prefixes[i % len(prefixes)]]
+            for pre in pres:
+                script = [{"c": "connect", "s": 0, "width": 80}, {"c": "idle"}]
+                for text, pcall in pre:
+                    script += [{"c": "send", "s": 0, "text": text, "cls": "mutate", "call": pcall}, {"c": "idle"}]
+                script += [{"c": "send", "s": 0, "text": line, "cls": "cmd", "call": call}, {"c": "idle"},
+                           {"c": "release_all"}, {"c": "idle"},
+                           {"c": "send", "s": 0, "text": "num-ended", "cls": "query", "call": {"kind": "get", "m": "num_ended"}},
+                           {"c": "idle"}, {"c": "eof", "s": 0}]
+                jobs.append({"kind": "command", "cls": cls, "line": line, "script": script, "twin": True})
     return jobs, nprog
 
 
